@@ -153,6 +153,7 @@ type HarnessRun struct {
 	ReachModel   map[string]map[string]uint64
 	ReachObserve map[string]map[string]uint64
 	ReachTrail   map[string][]int64
+	ReachSched   map[string][]schedStep
 	Funcs        map[string]bool
 	Intrinsics   map[string]bool
 	Inconclusive []string
@@ -168,7 +169,7 @@ type HarnessRun struct {
 
 func newHarnessRun(name string) *HarnessRun {
 	return &HarnessRun{Name: name, ViolCount: map[string]int{}, Reached: map[string]bool{}, ReachDecl: map[string]bool{},
-		ReachModel: map[string]map[string]uint64{}, ReachObserve: map[string]map[string]uint64{}, ReachTrail: map[string][]int64{},
+		ReachModel: map[string]map[string]uint64{}, ReachObserve: map[string]map[string]uint64{}, ReachTrail: map[string][]int64{}, ReachSched: map[string][]schedStep{},
 		Funcs: map[string]bool{}, Intrinsics: map[string]bool{}, Bounds: map[string]int64{}}
 }
 
